@@ -34,9 +34,23 @@ def programs(draw, target="hexital", max_n=40):
                 m["kw"][k] = min(m["kw"][k], draw(st.integers(2, 6)))
         if m.get("cls") == "MACD" and m["kw"]["fast_period"] >= m["kw"]["slow_period"]:
             m["kw"]["slow_period"] = m["kw"]["fast_period"] + 1
+    if target == "hexital" and draw(st.integers(0, 2)) == 0:
+        # a sibling that differs only by a name suffix (EMA_3 / EMA_3_high): names related by prefix
+        base = pool[draw(st.integers(0, len(pool) - 1))]
+        if "cls" in base:
+            sib = {"cls": base["cls"], "kw": dict(base["kw"], name_suffix=draw(st.sampled_from(("high", "b", "x2"))))}
+            if "input_value" in sib["kw"] or base["cls"] in ("EMA", "SMA", "RSI", "WMA", "RMA"):
+                sib["kw"]["input_value"] = "high"
+            pool.append(sib)
     n = draw(st.integers(3, max_n))
     tf = draw(st.sampled_from((None, None, None, "T5")))
-    step = 60 if not tf else draw(st.sampled_from((60, 150, 300)))
+    own = None
+    if target == "hexital" and draw(st.integers(0, 2)) == 0:
+        own = draw(st.sampled_from(("T5", "T10") if not tf else ("T10", "T15")))
+        for m in pool:
+            if draw(st.booleans()):
+                m["kw"]["timeframe"] = own
+    step = 60 if not (tf or own) else draw(st.sampled_from((60, 150, 300)))
     rows = [[gs.BASE_DAY + i * step] + r for i, r in enumerate(draw(gs.price_rows(n)))]
     pre = draw(st.integers(0, n))
     initial = 1 if target == "indicator" else draw(st.integers(1, len(pool)))
@@ -57,6 +71,33 @@ def programs(draw, target="hexital", max_n=40):
     return {"target": target, "pool": pool, "initial": initial, "tf": tf, "preload": rows[:pre], "ops": ops}
 
 
+@st.composite
+def churn_programs(draw):
+    """a member that is alone on its timeframe is removed, candles arrive, a member of that timeframe comes back"""
+    case = draw(programs("hexital", max_n=40))
+    pool = case["pool"]
+    for m in pool:
+        m["kw"].pop("timeframe", None)
+    own = "T5" if not case["tf"] else "T10"
+    k = draw(st.integers(0, len(pool) - 1))
+    pool[k]["kw"]["timeframe"] = own
+    case["initial"] = len(pool)
+    rows = case["preload"] + [r for op in case["ops"] if op["op"] == "append" for r in op["rows"]]
+    rows = [[gs.BASE_DAY + i * 150] + r[1:] for i, r in enumerate(rows)]
+    cut = max(1, len(rows) // 3)
+    a, b, c = rows[:cut], rows[cut : 2 * cut], rows[2 * cut :]
+    case["preload"] = a
+    ops = [{"op": "calculate_all", "who": 0}, {"op": "remove_exact", "who": k}]
+    if b:
+        ops.append({"op": "append", "who": 0, "rows": b})
+    ops.append({"op": "add_exact", "who": k})
+    if c:
+        ops.append({"op": "append", "who": 0, "rows": c})
+    ops += [o for o in case["ops"] if o["op"] in ("purge", "recalculate", "calculate_index")][:3]
+    case["ops"] = ops
+    return case
+
+
 def _footprint(cfg, rows, tf, standalone=False):
     from hexital import Hexital
 
@@ -66,9 +107,10 @@ def _footprint(cfg, rows, tf, standalone=False):
         ind.calculate()
         candles = ind.candles
     else:
-        hx = Hexital("solo", mk_candles(rows), [build_indicator(cfg)], **kw)
+        ind = build_indicator(cfg)
+        hx = Hexital("solo", mk_candles(rows), [ind], **kw)
         hx.calculate()
-        candles = hx.candles()
+        candles = ind.candles
     keys = set()
     for c in candles:
         keys |= set(c.indicators) | set(c.sub_indicators)
@@ -102,8 +144,17 @@ class Driver:
     def ind(self, i):
         return self.obj.indicator(self.names[i]) if self.hexital else self.obj
 
+    def manager_key(self, i):
+        if not self.hexital:
+            return "default"
+        cm = self.ind(i).candle_manager
+        return next((k for k, m in self.obj._candles.items() if m is cm), "?")
+
     def snapshot(self):
-        return snap(self.candles())
+        """per candle manager (a Hexital member may live on its own timeframe)"""
+        if self.hexital:
+            return {name: snap(m.candles) for name, m in self.obj._candles.items()}
+        return {"default": snap(self.obj.candles)}
 
     def calculate(self, i=None):
         if self.hexital:
@@ -139,10 +190,10 @@ class Driver:
         if self.hexital:
             hx = Hexital("twin", mk_candles(self.rows), [build_indicator(self.cfgs[i]) for i in self.registered], **kw)
             hx.calculate()
-            return snap(hx.candles())
+            return {name: snap(m.candles) for name, m in hx._candles.items()}
         ind = build_indicator(self.cfgs[0], candles=mk_candles(self.rows), **kw)
         ind.calculate()
-        return snap(ind.candles)
+        return {"default": snap(ind.candles)}
 
 
 def run_case(case) -> Result:
@@ -175,16 +226,29 @@ def run_case(case) -> Result:
         except Exception:
             return None  # the batch run itself raises: totality is C09's business
         got = d.snapshot()
-        diff = first_diff(got, want)
-        if diff is not None:
-            i, text = diff
-            return Violation("does-not-converge-to-batch", when.split(" ")[0], f"{when}: candle {i}: after calculate() {text} (object vs batch twin)", subject)
+        for mname, wsnap in want.items():
+            # A timeframe created by a later add_indicator is copied from the base candles and may carry stray
+            # entries of indicators that are NOT registered on it (they are nobody's readings there); the statement
+            # speaks of the registered indicators, so only keys the batch twin knows on this timeframe are compared.
+            keys = set()
+            for r in wsnap:
+                keys |= set(r[6]) | set(r[7])
+            gsnap = [r[:6] + [{k: v for k, v in r[6].items() if k in keys}, {k: v for k, v in r[7].items() if k in keys}] for r in got.get(mname, [])]
+            diff = first_diff(gsnap, wsnap)
+            if diff is not None:
+                i, text = diff
+                return Violation("does-not-converge-to-batch", when.split(" ")[0], f"{when}: manager {mname} candle {i}: after calculate() {text} (object vs batch twin)", subject)
         return None
 
     try:
         for k, op in enumerate(case["ops"]):
             kind = op["op"]
             who = d.registered[op["who"] % len(d.registered)] if d.registered else None
+            if kind == "remove_exact":
+                kind, who = "remove", (op["who"] if op["who"] in d.registered else None)
+            exact_add = None
+            if kind == "add_exact":
+                kind, exact_add = "add", op["who"]
             where = f"op {k} {kind}" + (f"({d.names[who]})" if who is not None and not kind.endswith("_all") else "")
             if kind == "append":
                 d.obj.append(mk_candles(op["rows"]))
@@ -203,8 +267,7 @@ def run_case(case) -> Result:
                 d.calculate(None if kind == "calculate_all" else who)
                 fired += 1
                 if not same(once, d.snapshot()):
-                    i, text = first_diff(once, d.snapshot())
-                    return fail("calculate-not-idempotent", "calculate", f"{where}: candle {i}: {text}")
+                    return fail("calculate-not-idempotent", "calculate", f"{where}: " + _dict_diff(once, d.snapshot()))
             elif kind in ("recalculate", "recalculate_all"):
                 if who is None:
                     continue
@@ -215,33 +278,36 @@ def run_case(case) -> Result:
                 fired += 1
                 special = True
                 if was_clean and not same(before, d.snapshot()):
-                    i, text = first_diff(before, d.snapshot())
-                    return fail("recalculate-changes-readings", "recalculate", f"{where}: candle {i}: before vs after {text}")
+                    return fail("recalculate-changes-readings", "recalculate", f"{where}: before vs after " + _dict_diff(before, d.snapshot()))
             elif kind in ("purge", "purge_all"):
                 if who is None:
                     continue
                 targets = list(d.registered) if kind == "purge_all" else [who]
-                foot = set()
+                foot = {}  # per candle manager: the keys the purged members write there
                 for j in targets:
-                    foot |= _footprint(d.cfgs[j], d.rows, d.tf, not d.hexital) if d.rows else set()
+                    mgr = d.manager_key(j)
+                    foot.setdefault(mgr, set())
+                    foot[mgr] |= _footprint(d.cfgs[j], d.rows, d.tf, not d.hexital) if d.rows else set()
                 before = d.snapshot()
                 d.purge(None if kind == "purge_all" else who)
                 after = d.snapshot()
                 fired += 1
                 special = True
-                for i, (b, a) in enumerate(zip(before, after)):
-                    for slot, nm in ((6, "indicators"), (7, "sub_indicators")):
-                        left = set(a[slot]) & foot
-                        if left:
-                            return fail("purge-leaves-entries", "purge", f"{where}: candle {i} {nm} still holds {sorted(left)}")
-                        lost = (set(b[slot]) - foot) - set(a[slot])
-                        changed = [key for key in set(a[slot]) if not same(a[slot][key], b[slot].get(key))]
-                        if lost or changed:
-                            return fail("purge-touches-other-entries", "purge", f"{where}: candle {i} {nm}: lost {sorted(lost)} changed {sorted(changed)}")
+                for mname in before:
+                    fm = foot.get(mname, set())
+                    for i, (b, a) in enumerate(zip(before[mname], after.get(mname, []))):
+                        for slot, nm in ((6, "indicators"), (7, "sub_indicators")):
+                            left = set(a[slot]) & fm
+                            if left:
+                                return fail("purge-leaves-entries", "purge", f"{where}: manager {mname} candle {i} {nm} still holds {sorted(left)}")
+                            lost = (set(b[slot]) - fm) - set(a[slot])
+                            changed = [key for key in set(a[slot]) if not same(a[slot][key], b[slot].get(key))]
+                            if lost or changed:
+                                return fail("purge-touches-other-entries", "purge", f"{where}: manager {mname} candle {i} {nm}: lost {sorted(lost)} changed {sorted(changed)}")
             elif kind == "calculate_index":
-                if who is None or not d.clean.get(who) or not d.candles():
+                if who is None or not d.clean.get(who) or not d.ind(who).candles:
                     continue
-                n = len(d.candles())
+                n = len(d.ind(who).candles)
                 i = op["index"] % n
                 arg = i - n if op.get("negative") else i
                 if op.get("negative"):
@@ -264,7 +330,7 @@ def run_case(case) -> Result:
                 free = [j for j in range(len(d.cfgs)) if j not in d.registered]
                 if not free:
                     continue
-                j = free[op["who"] % len(free)]
+                j = exact_add if exact_add in free else free[op["who"] % len(free)]
                 d.obj.add_indicator(build_indicator(d.cfgs[j]) if op["who"] % 2 else dict({"indicator": _key(d.cfgs[j])}, **d.cfgs[j]["kw"]) if "cls" in d.cfgs[j] else build_indicator(d.cfgs[j]))
                 d.registered.append(j)
                 d.clean[j] = False
@@ -272,10 +338,16 @@ def run_case(case) -> Result:
             elif kind == "remove" and d.hexital:
                 if who is None or len(d.registered) <= 1:
                     continue
+                foot = _footprint(d.cfgs[who], d.rows, d.tf, False) if d.rows else set()
+                mgr = d.manager_key(who)
                 d.obj.remove_indicator(d.names[who])
                 d.registered.remove(who)
                 d.clean.pop(who, None)
                 fired += 1
+                for i, r in enumerate(d.snapshot().get(mgr, [])):
+                    left = (set(r[6]) | set(r[7])) & foot
+                    if left:
+                        return fail("remove-leaves-entries", "remove_indicator", f"{where}: candle {i} still holds {sorted(left)}")
     except Exception as exc:
         v = raises(exc, subject)
         v.detail = f"{where}: " + v.detail
@@ -283,6 +355,14 @@ def run_case(case) -> Result:
         return Result([v], fired >= 3 and special, sorted(set(labels)))
     v = converge("end-of-program")
     return Result([v] if v else [], fired >= 3 and special, sorted(set(labels)))
+
+
+def _dict_diff(a, b):
+    for mname in a:
+        d = first_diff(a[mname], b.get(mname, []))
+        if d is not None:
+            return f"manager {mname} candle {d[0]}: {d[1]}"
+    return "managers differ"
 
 
 def _key(cfg):
@@ -297,4 +377,5 @@ def shards(tier):
     n = 200 if tier == "quick" else 5000
     out = [Shard(f"hexital-{i}", lambda: programs("hexital"), n, subject="hexital", cost=2) for i in range(11)]
     out += [Shard(f"indicator-{i}", lambda: programs("indicator"), n, subject="indicator") for i in range(5)]
+    out += [Shard(f"hexital-churn-{i}", lambda: churn_programs(), n // 2, subject="hexital", cost=2) for i in range(2)]
     return out
